@@ -223,6 +223,14 @@ def check_frame(c):
         eq(devs, f"frame.dec.obs.{tag}", obs_frame(u), want_obs)
         eq(devs, f"frame.dec.repack.{tag}", bytes(u.pack(truncated=trunc, frame_type=ft)), want)
         eq(devs, f"frame.dec.len.{tag}", u.len(), len(want))
+    # the data field on its own, with the frame type left out (documented as optional: it is only used for the rule check)
+    if not trunc:
+        tf = F.TransferFrameDataField(F.TfdzConstructionRules(c["rule"]), F.UslpProtocolIdentifier(c["upid"]), bytes.fromhex(c["tfdz"]), c["pointer"])
+        raw_tfdf = RU.tfdf_header(c["rule"], c["upid"], c["pointer"]) + bytes.fromhex(c["tfdz"])
+        eq(devs, "tfdf.pack_without_frame_type", bytes(tf.pack(truncated=False, frame_type=None)), raw_tfdf)
+        tu = F.TransferFrameDataField.unpack(raw_tfdf + b"\xee\xee", False, len(raw_tfdf), None)
+        eq(devs, "tfdf.unpack_without_frame_type", (int(tu.tfdz_contr_rules), int(tu.uslp_ident), tu.fhp_or_lvop, bytes(tu.tfdz).hex()), (c["rule"], c["upid"], c["pointer"], c["tfdz"]))
+        eq(devs, "tfdf.len_without_frame_type", tu.len(), len(raw_tfdf))
     # managed parameters that carry a configured size for a field that is switched off (the size is then irrelevant)
     over = {}
     if c["insert_zone"] is None:
